@@ -86,3 +86,8 @@ pub fn x_to_ts(c: Compiler<B, CompilerReady>, b: T) -> Compiler<T, CompilerReady
 pub fn x_to_rasn(c: Compiler<T, CompilerReady>, b: B) -> Compiler<B, CompilerReady> {
     c.with_backend(b)
 }
+
+// ---- a configured backend: the builder must carry it through every transition -------------------------------------------
+pub fn b_new_cfg(cfg: RasnConfig) -> Compiler<B, CompilerMissingParams> {
+    Compiler::<B, _>::new_with_config(cfg)
+}
